@@ -19,10 +19,12 @@ META = {"engine": "C function",
                       "0x62EC59E3F1A4F00A) and struct.unpack"}
 
 
-def _one(ctx, crc16, crc64, data, form, tag):
+def _one(ctx, crc16, crc64, data, form, tag, arg=None):
+    """arg: the caller's own buffer object holding `data` (a frame buffer that is refilled and checksummed again)"""
     import struct
     s = bytes(data)
-    arg = s if form == 0 else (bytearray(s) if form == 1 else list(s))
+    if arg is None:
+        arg = s if form == 0 else (bytearray(s) if form == 1 else list(s))
     ctx.case(("s", s.hex()) if len(s) > 6 else "s" + s.hex(), nontrivial=len(s) >= 1)
     want16 = fnref.crc16_genibus(s)
     want64 = fnref.crc64_we(s)
@@ -65,6 +67,7 @@ def worker(ctx, job):
         ctx.hit("short_strings_blocks", hi - lo)
     else:
         rng = ctx.subrng("c41", job["index"])
+        frames = {True: bytearray(), False: []}
         for i in range(job["n"]):
             r = rng.random()
             if r < 0.35:
@@ -84,7 +87,18 @@ def worker(ctx, job):
                 b = bytearray(n)
                 b[rng.randrange(n)] = 1 << rng.randrange(8)
                 s = bytes(b)
-            _one(ctx, crc16, crc64, s, i % 3, "long")
+            if i % 4 == 3:
+                # one buffer object of the caller's, refilled in place and checksummed again (bytearray or list)
+                buf = frames[i % 8 == 3]
+                buf[:] = s
+                _one(ctx, crc16, crc64, s, 1, "long-reused-buffer", arg=buf)
+                # ... and again right away with the next frame in the same buffer (same length or not)
+                s2 = bytes(reversed(s)) if i % 16 == 3 else bytes(rng.getrandbits(8) for _ in range(rng.choice([len(s), len(s), 5])))
+                buf[:] = s2
+                _one(ctx, crc16, crc64, s2, 1, "long-reused-buffer", arg=buf)
+                ctx.hit("reused_buffer_calls", 2)
+            else:
+                _one(ctx, crc16, crc64, s, i % 3, "long")
             ctx.hit("long_strings")
             if i == 0:
                 ctx.sample({"len": n, "head_hex": s[:12].hex(), "crc16": "%04x" % fnref.crc16_genibus(s),
@@ -113,6 +127,7 @@ def run(ctx):
     ctx.extra["exhaustive_scope"] = "all byte strings of length <= 2; longer strings sampled"
     ctx.floor("short_strings_blocks", 258)
     ctx.floor("check_vector", 1)
+    ctx.floor("reused_buffer_calls", ctx.pick(100, 40000))
     ctx.floor("long_strings", nlong // 3)
     ctx.floor("distinct_nontrivial", 65792 + nlong // 3)
     ctx.floor("oracle_evaluations", 2 * 65793)
